@@ -22,7 +22,7 @@ EXIT_SKIPS_NONE = {"dtypeGP": False, "dtypeLO": True}  # code-shaped: gpytorch's
                                                         # (after the fix: commit), linear_operator's skips None
 
 
-def write_mc(workdir, name, settings, depth, maxlen, record, exit_skips=None):
+def write_mc(workdir, name, settings, depth, maxlen, record, exit_skips=None, warn_before_set=True):
     """settings: {name: dict(kind=, defon=, halfnone=)}; returns absolute module path (without .tla) and cfg."""
     os.makedirs(workdir, exist_ok=True)
     mod = "MC_Settings_" + name
@@ -36,13 +36,14 @@ def write_mc(workdir, name, settings, depth, maxlen, record, exit_skips=None):
            "DefOnDef == " + tla_fn({s: '"%s"' % v.get("defon", "F") for s, v in settings.items()}),
            "HalfNoneDef == " + tla_fn({s: "TRUE" if v.get("halfnone") else "FALSE" for s, v in settings.items()}),
            "ExitSkipsNoneDef == " + tla_fn({k: "TRUE" if es.get(k, False) else "FALSE" for k in kinds}),
+           "WarnsDef == {%s}" % ", ".join('"%s"' % s for s, v in settings.items() if v.get("warns")),
            "===="]
     with open(os.path.join(workdir, mod + ".tla"), "w") as f:
         f.write("\n".join(src) + "\n")
     cfg = os.path.join(workdir, mod + ".cfg")
     tlc.write_cfg(cfg, spec="Spec",
                   constants={"Setting": "<- SettingDef", "Kind": "<- KindDef", "DefOn": "<- DefOnDef", "HalfNone": "<- HalfNoneDef",
-                             "ExitSkipsNone": "<- ExitSkipsNoneDef", "MaxDepth": depth, "MaxLen": maxlen, "RecordHist": record},
+                             "ExitSkipsNone": "<- ExitSkipsNoneDef", "WarnsOnEnter": "<- WarnsDef", "WarnBeforeSet": warn_before_set, "MaxDepth": depth, "MaxLen": maxlen, "RecordHist": record},
                   invariants=["TypeOK", "InnermostWins", "DefaultsOutside"],
                   properties=["RestoredOnExit", "EnterIsLocal", "ConstructIsPure"])
     return os.path.join(workdir, mod + ".tla"), cfg
@@ -56,6 +57,7 @@ MC_RUNS = {  # name -> (settings, depth quick, depth thorough)
     "fc": ({"fc": dict(kind="fc", defon="T")}, 3, 4),
     "ld_value": ({"ld": dict(kind="ld"), "val": dict(kind="value")}, 3, 4),
     "mixed": ({"fT": dict(kind="flag", defon="T"), "val": dict(kind="value"), "fpv": dict(kind="fpv", defon="F"), "ld": dict(kind="ld")}, 3, 3),
+    "warning_on_enter": ({"wv": dict(kind="value", warns=True), "fF": dict(kind="flag", defon="F")}, 3, 4),
 }
 # code-shaped model of the two dtype settings whose half-precision default is None
 PREDICT_RUNS = {
@@ -72,6 +74,7 @@ GEN_RUNS = {  # name -> (settings, depth, maxlen quick, maxlen thorough)
     "fc": ({"fc": dict(kind="fc", defon="T")}, 3, 4, 6),
     "ld": ({"ld": dict(kind="ld")}, 3, 4, 6),
     "mixed": ({"fT": dict(kind="flag", defon="T"), "val": dict(kind="value"), "fpv": dict(kind="fpv", defon="F")}, 3, 6, 6),
+    "warns": ({"wv": dict(kind="value", warns=True), "fF": dict(kind="flag", defon="F")}, 2, 5, 6),
 }
 
 
@@ -116,16 +119,18 @@ class Real:
         if a == "d0":
             return self.parse(d)
         i = 1 if a == "v1" else 2
+        # v2 is realised by the ZERO of the field's type wherever that is a valid, non-default argument: a falsy value
+        # must be honoured like any other (`x or default` style slips)
         if d.startswith("torch."):
             return [torch.float32, torch.float16][i - 1]
         if n == "observation_nan_policy":
             return ["mask", "fill"][i - 1]
         if d == "None":
-            return [0.125, 0.375][i - 1]
+            return [0.125, 0.0][i - 1]
         v = self.parse(d)
         if isinstance(v, int):
-            return v + [3, 8][i - 1]
-        return [0.125, 0.375][i - 1]
+            return v + 3 if i == 1 else (0 if v != 0 else 8)
+        return [0.125, 0.0][i - 1]
 
     def parse(self, s):
         if s == "None":
@@ -238,7 +243,7 @@ class Mismatch(Exception):
         self.step, self.what, self.cls, self.clause, self.fields = step, what, cls, clause, tuple(fields)
 
 
-CLAUSE = {"Construct": "ConstructIsPure", "Enter": "EnterSetsRequested", "Exit": "RestoredOnExit", "Raise": "RestoredOnExit"}
+CLAUSE = {"Construct": "ConstructIsPure", "Enter": "EnterSetsRequested", "Exit": "RestoredOnExit", "Raise": "RestoredOnExit", "EnterFails": "FailedEnterLeavesNoEffect"}
 
 
 def diff_fields(got, want):
@@ -290,6 +295,22 @@ def run_program(real, ops, mapping, rnd):
                 i += 1
                 if i >= len(ops):
                     return i, False  # constructed, never entered
+                if ops[i]["a"] == "EnterFails":
+                    # the caller has escalated warnings to errors: __enter__ raises, __exit__ is never called
+                    import warnings
+                    raised = False
+                    with warnings.catch_warnings():
+                        warnings.simplefilter("error")
+                        try:
+                            with obj:
+                                pass
+                        except Warning:
+                            raised = True
+                    if not raised:
+                        raise core.Machinery("%s does not warn on __enter__ (catalog says it does)" % mapping[op["s"]])
+                    check(i)
+                    i += 1
+                    continue
                 if ops[i]["a"] != "Enter":
                     raise core.Machinery("behaviour has Construct not followed by Enter")
                 enter_i = i
@@ -427,6 +448,8 @@ def pretty(ops, mapping):
             out.append("%s(%s)" % (mapping[o["s"]], ",".join("%s=%s" % kv for kv in sorted(o["args"].items()))))
         elif o["a"] == "Enter":
             out.append("enter")
+        elif o["a"] == "EnterFails":
+            out.append("enter-raises(warning as error)")
         elif o["a"] == "Exit":
             out.append("exit")
         else:
@@ -446,6 +469,8 @@ def mappings_for(real, settings, rnd, per_kind_all):
             if k == "flag" and ("T" if e["default"]["state"] == "T" else "F") != settings[s].get("defon", "F"):
                 continue
             if k in ("dtypeGP", "dtypeLO") and (e["default"]["h"] == "None") != bool(settings[s].get("halfnone")):
+                continue
+            if settings[s].get("warns") and e.get("warns") != "T":
                 continue
             pool.append(n)
         pools.append(pool)
